@@ -117,9 +117,112 @@ func printExpr(fset *token.FileSet, n ast.Node) string {
 	return strings.Join(strings.Fields(b.String()), " ")
 }
 
+// package-level constants and variable initialisers of package common (all non-test files of the
+// directory), filled by loadPackageDecls; identifiers are resolved through them, so naming a
+// literal (const addrVersion = 23) is a harmless rewrite for the translator.
+var (
+	pkgConsts = map[string]ast.Expr{}
+	pkgVars   = map[string]ast.Expr{}
+)
+
+func loadPackageDecls(dir string) {
+	pkgConsts = map[string]ast.Expr{}
+	pkgVars = map[string]ast.Expr{}
+	files, _ := filepath.Glob(filepath.Join(dir, "*.go"))
+	for _, fn := range files {
+		if strings.HasSuffix(fn, "_test.go") {
+			continue
+		}
+		f, err := parser.ParseFile(token.NewFileSet(), fn, nil, 0)
+		if err != nil {
+			continue
+		}
+		for _, d := range f.Decls {
+			gd, ok := d.(*ast.GenDecl)
+			if !ok || (gd.Tok != token.CONST && gd.Tok != token.VAR) {
+				continue
+			}
+			for _, sp := range gd.Specs {
+				vs, ok := sp.(*ast.ValueSpec)
+				if !ok {
+					continue
+				}
+				for i, id := range vs.Names {
+					if i < len(vs.Values) { // implicit repetition / iota groups are not resolved (fail closed)
+						if gd.Tok == token.CONST {
+							pkgConsts[id.Name] = vs.Values[i]
+						} else {
+							pkgVars[id.Name] = vs.Values[i]
+						}
+					}
+				}
+			}
+		}
+	}
+}
+
 // constInt evaluates the integer-constant fragment used in address.go: literals, + - *,
-// parentheses, the conversion byte(x) and the identifier ADDR_LEN.
-func constInt(e ast.Expr) (int64, bool) {
+// parentheses, the conversions byte(x)/int(x)/uint8(x) and identifiers of package-level constants.
+func constInt(e ast.Expr) (int64, bool) { return constIntD(e, 0) }
+
+// prefixBytes evaluates a constant byte-slice expression: []byte{...}, make([]byte, n[, cap]),
+// append(<such>, b...), or a package-level variable initialised with one.
+func prefixBytes(e ast.Expr, depth int) ([]int64, bool) {
+	if depth > 8 {
+		return nil, false
+	}
+	switch x := e.(type) {
+	case *ast.ParenExpr:
+		return prefixBytes(x.X, depth+1)
+	case *ast.Ident:
+		if init, ok := pkgVars[x.Name]; ok {
+			return prefixBytes(init, depth+1)
+		}
+	case *ast.CompositeLit:
+		at, ok := x.Type.(*ast.ArrayType)
+		if !ok || at.Len != nil || !(isIdent(at.Elt, "byte") || isIdent(at.Elt, "uint8")) {
+			return nil, false
+		}
+		var out []int64
+		for _, el := range x.Elts {
+			v, ok := constInt(el)
+			if !ok || v < 0 || v > 255 {
+				return nil, false
+			}
+			out = append(out, v)
+		}
+		return out, true
+	case *ast.CallExpr:
+		if isIdent(x.Fun, "make") && (len(x.Args) == 2 || len(x.Args) == 3) {
+			n, ok := constInt(x.Args[1])
+			if !ok || n < 0 || n > 64 {
+				return nil, false
+			}
+			return make([]int64, n), true
+		}
+		if isIdent(x.Fun, "append") && len(x.Args) >= 1 && !x.Ellipsis.IsValid() {
+			out, ok := prefixBytes(x.Args[0], depth+1)
+			if !ok {
+				return nil, false
+			}
+			for _, el := range x.Args[1:] {
+				v, ok := constInt(el)
+				if !ok || v < 0 || v > 255 {
+					return nil, false
+				}
+				out = append(out, v)
+			}
+			return out, true
+		}
+	}
+	return nil, false
+}
+
+func constIntD(e ast.Expr, depth int) (int64, bool) {
+	if depth > 16 {
+		return 0, false
+	}
+	constInt := func(e ast.Expr) (int64, bool) { return constIntD(e, depth+1) }
 	switch x := e.(type) {
 	case *ast.BasicLit:
 		if x.Kind != token.INT {
@@ -130,14 +233,25 @@ func constInt(e ast.Expr) (int64, bool) {
 	case *ast.ParenExpr:
 		return constInt(x.X)
 	case *ast.Ident:
+		if init, ok := pkgConsts[x.Name]; ok {
+			v, ok := constInt(init)
+			if ok && x.Name == "ADDR_LEN" && v != int64(common.ADDR_LEN) {
+				return 0, false // source and linked package disagree
+			}
+			return v, ok
+		}
 		if x.Name == "ADDR_LEN" {
 			return int64(common.ADDR_LEN), true
 		}
 		return 0, false
 	case *ast.CallExpr:
-		if id, ok := x.Fun.(*ast.Ident); ok && id.Name == "byte" && len(x.Args) == 1 {
+		if id, ok := x.Fun.(*ast.Ident); ok && (id.Name == "byte" || id.Name == "uint8") && len(x.Args) == 1 {
 			v, ok := constInt(x.Args[0])
 			return v, ok && v >= 0 && v < 256
+		}
+		if id, ok := x.Fun.(*ast.Ident); ok && (id.Name == "int" || id.Name == "uint" || id.Name == "int64" || id.Name == "uint64") && len(x.Args) == 1 {
+			v, ok := constInt(x.Args[0])
+			return v, ok && v >= 0
 		}
 		return 0, false
 	case *ast.BinaryExpr:
@@ -167,6 +281,7 @@ func isIdent(e ast.Expr, name string) bool {
 func addressLiterals(path string) (map[string]lit, map[string]string) {
 	out := map[string]lit{}
 	errs := map[string]string{}
+	loadPackageDecls(filepath.Dir(path))
 	fset := token.NewFileSet()
 	f, err := parser.ParseFile(fset, path, nil, 0)
 	if err != nil {
@@ -238,6 +353,21 @@ func addressLiterals(path string) (map[string]lit, map[string]string) {
 		case "ToBase58":
 			ast.Inspect(fd.Body, func(n ast.Node) bool {
 				switch x := n.(type) {
+				case *ast.CallExpr: // append(<package-level prefix slice>, f[:]...): the prefix is the version byte
+					if isIdent(x.Fun, "append") && len(x.Args) == 2 && x.Ellipsis.IsValid() {
+						if id, ok := x.Args[0].(*ast.Ident); ok {
+							if _, isVar := pkgVars[id.Name]; isVar {
+								if se, ok := x.Args[1].(*ast.SliceExpr); ok && se.Low == nil && se.High == nil {
+									vals, ok := prefixBytes(id, 0)
+									if ok && len(vals) == 1 {
+										set("ADDR_VERSION_ENC", vals[0], true, x)
+									} else {
+										set("ADDR_VERSION_ENC", 0, false, x)
+									}
+								}
+							}
+						}
+					}
 				case *ast.CompositeLit: // []byte{23}
 					if at, ok := x.Type.(*ast.ArrayType); ok && at.Len == nil && isIdent(at.Elt, "byte") {
 						if len(x.Elts) == 1 {
